@@ -64,7 +64,46 @@ def exhaustive(tier):
     for r in range(2, 6):
         for sub in itertools.permutations(big, r):
             cases.append({'only': 'compact', 'ints': list(sub), 'order': 'asc'})
-    return {'cases': cases, 'bound': 'all 64 subsets of {-5,-1,0,3,4,10^9} x 3 input orders, and every ordered selection of 2-5 of five neighbours of +-2^60, for compact_timeslot'}
+    # keys=True on files of more than 1 MiB (buffered / block-wise pre-passes over the file), every tier
+    for fmt, cls in (('snap', 'DynGraph'), ('inter', 'DynDiGraph')):
+        cases.append({'only': 'hugekeys', 'fmt': fmt, 'cls': cls})
+    return {'cases': cases, 'bound': 'all 64 subsets of {-5,-1,0,3,4,10^9} x 3 input orders, and every ordered selection of 2-5 of five neighbours of +-2^60, for compact_timeslot; '
+            'two keys=True reads of files larger than 1 MiB (22000 rows with sparse 6-digit timestamps)'}
+
+
+def huge_keys(case, rec):
+    """read_*(path, keys=True) on a file of > 1 MiB == parse of the same rows with ranked timestamps."""
+    import dynetx as dn
+    fmt, directed = case['fmt'], case['cls'] == 'DynDiGraph'
+    names = ['station_%s_%02d' % ('abcdefghijklmnopqrstuvwx'[i % 24] * 14, i) for i in range(30)]
+    rows, ranked = [], []
+    n = 22000
+    for i in range(n):
+        u, v = names[i % 30], names[(i * 7 + 1 + i // 30) % 30]
+        t = 100003 + 37 * i
+        if fmt == 'snap':
+            rows.append('%s %s %d\n' % (u, v, t))
+            ranked.append('%s %s %d\n' % (u, v, i))
+        else:
+            rows.append('%s %s + %d\n' % (u, v, t))
+            ranked.append('%s %s + %d\n' % (u, v, i))
+    blob = ''.join(rows).encode('utf-8')
+    rec.check('C18.keys.huge.size', len(blob) > (1 << 20) + 4096, 'generated file has only %d bytes' % len(blob))
+    parse = dn.parse_snapshots if fmt == 'snap' else dn.parse_interactions
+    reader = dn.read_snapshots if fmt == 'snap' else dn.read_interactions
+    okr, Rk = safe(parse, ranked, directed=directed, nodetype=str, timestamptype=int)
+    with iocommon.Scratch() as sc:
+        p = sc.path('k_huge.txt')
+        with open(p, 'wb') as f:
+            f.write(blob)
+        okk, K = safe(lambda: reader(p, directed=directed, nodetype=str, timestamptype=int, keys=True))
+    ctx = '%s %s file of %d rows / %d bytes' % (case['cls'], fmt, n, len(blob))
+    if rec.check('C18.keys.huge', okk and okr, lambda: '%s: read(keys=True) raised %r / ranked rows %r' % (ctx, K, Rk)):
+        ok, (o1, o2) = safe(lambda: (observe(K, names[:6], [0, 1, 2, 17475, 17476, 17477, n - 2, n - 1, n]),
+                                     observe(Rk, names[:6], [0, 1, 2, 17475, 17476, 17477, n - 2, n - 1, n])))
+        rec.check('C18.keys.huge', ok and o1 == o2, lambda: '%s: keys=True differs from the ranked rows in %r' % (ctx, diff(o1, o2) if ok else o1))
+    rec.classify('keys: file > 1 MiB')
+    return True
 
 
 def check_compact(rec, ints, ctx=''):
@@ -164,6 +203,8 @@ def run_case(case, rec):
             ints = ints[1:] + ints[:1]
         check_compact(rec, ints, 'exhaustive')
         return len(ints) >= 2
+    if case.get('only') == 'hugekeys':
+        return huge_keys(case, rec)
     if case.get('only') == 'fuzz':
         for sub, detail in fuzz_oracle(bytes.fromhex(case['hex'])):
             rec.check(sub, False, detail)
